@@ -1,5 +1,6 @@
 import ElexModel.Props.C04
 import ElexModel.Props.C03
+import ElexModel.Gen.C05
 import Mathlib.Algebra.Order.AbsoluteValue.Basic
 
 /-!
@@ -205,5 +206,23 @@ theorem swing_is_unitPred (m b part : ℚ) : swingPred m b part = Agg.unitPred m
 /-! ### non-vacuity -/
 example : wmed [(1/10, 100), (-1/5, 300), (3/10, 150), (0, 50)] = some (0 : ℚ) := by decide +kernel
 example : swingPred (1/10) 99 30 = 110 ∧ swingPred (-1/2) 99 80 = 80 := by decide +kernel
+
+end ElexModel.Conformal
+
+/-! ### bridge: the median solve and the closing formula as they are in `/repo/src` on this run -/
+
+namespace ElexModel.Conformal
+open ElexModel
+
+/-- the median fit is asked for level ½ of the relative changes of the reporting units, weighted by their baseline column,
+    with an intercept -/
+theorem bridge_median_fit :
+    Gen.C05.median_fit_args = ["qr", "reporting_units_features", "reporting_units_residuals", "0.5", "weights", "True"] ∧
+    Gen.C05.median_fit_weights = ["reporting_units[f'last_election_results_{estimand}']"] ∧
+    Gen.C05.median_fit_target = ["reporting_units[f'residuals_{estimand}']"] := by decide
+
+/-- the source's prediction formula at the fitted constant `m` is the uniform swing -/
+theorem bridge_swing (m b part : ℚ) : Gen.C05.unit_pred m (b + 1) part = (swingPred m b part : ℚ) := by
+  rw [swing_is_unitPred]; rfl
 
 end ElexModel.Conformal
